@@ -76,6 +76,36 @@ CHECKS = {
          "Random trees (depth <= 4) with .slice files, other extensions, x.slice directories, symlinks to files and directories, dangling links, non-UTF-8 and mode-000 entries, and argument lists aliasing the same file through many spellings in both lists are compiled in-process; the file list (order, is_source, spelling), DuplicateFile warnings and E001 errors must equal an independent model with its own POSIX path resolver; nothing is parsed after an I/O error. A subset runs through the real binary and checks the source/reference split in the captured request.",
          "order within a walked directory is not asserted; number of DuplicateFile warnings per repeated file may be 1..routes-1; the binary family uses a weaker marker-based oracle",
          "DESIGN.md section 5, C17"),
+ "C01": ("bounded-exhaustive token soups and type-form x position programs, proptest mutations / arbitrary Unicode / injected programs, enumerated cycle graphs, growth probe; isolated workers with crash journal and 20 s watchdog; binary runs with option vectors",
+         "exploration",
+         "Every sequence of <= 2 (quick) / <= 3 (thorough) tokens over a 78-token alphabet in 8 contexts, 22 type forms in 14 positions, enumerated alias / inheritance / containment graphs, thousands of mutated generated programs and shipped .slice files, arbitrary Unicode and programs with injected violations are run through compile + diagnostic patching + both emitters in isolated worker processes (a death or a case over 20 s is seen by the supervisor, confirmed solo with a tripled bound, shrunk and reported), and a fraction through the real binary with 22 option vectors (exit status in {0,1,2}, no signal, no panic). A doubling probe on dense acyclic containment / inheritance graphs guards the time bound.",
+         "absence of crashes only for the explored inputs; 'grows gently' is asserted as the stated bound plus the doubling probe; undefined behaviour that happens not to crash is not seen (no sanitizer in the in-process tier)",
+         "DESIGN.md section 5, C01"),
+ "C07": ("proptest run configurations through the real binary with instrumented fake generators (invocation log, output files)",
+         "exploration",
+         "15 program states (clean, warnings only by three lints, one error of each phase incl. three I/O errors and a cross-file redefinition, in any of 1..4 source / reference files) x 0..3 generators (one optionally failing) x --dry-run x format x -A lists x -O: generators run and files appear iff no error and no --dry-run; warnings never prevent generation; exit status != 0 iff an error diagnostic was emitted.",
+         "trusts the fake generator's invocation log and the parsing of emitted diagnostics (JSON lines / 'error [' headers)",
+         "DESIGN.md section 5, C07"),
+ "C13": ("bounded-exhaustive template matrix (lint x site x placement x argument x decoy) with a reference predicate; metamorphic with/without pairs; binary subset",
+         "exploration",
+         "All 6048 cells of lint kind x 12 sites x 9 placements x 7 argument shapes (incl. separate attributes and a decoy allow closer to the site) are compiled in-process: the statement's predicate decides the expected level; the with/without pair must differ in nothing but that level and the added attribute (diagnostics, AST); 8 error kinds stay errors under allow(All) everywhere and -A All; through the binary: case-insensitive -A spellings, DuplicateFile, exit status, identical generator request. Complete over the matrix.",
+         "trusts the reference predicate; for a single unnamed return value the element concerned is the operation",
+         "DESIGN.md section 5, C13"),
+ "C14": ("proptest bundles of diagnostic producers on real files; the emitted stream is parsed back and compared with the Diagnostic accessors (library) and with the binary's stderr / stdout / exit status",
+         "exploration",
+         "Files with hostile names and text (quotes, backslashes, control and non-ASCII characters, tabs, CRLF) producing 0..30 diagnostics of every shape (no span / single line / multi-line / zero width; notes with and without span) are emitted in human and JSON format with colours forced on or disabled and five -A lists: JSON = exactly one five-key object per non-silenced diagnostic in order; human = header, location line, snippet with the right line numbers and exactly the spanned cells underlined (tab = 4), notes; silenced lints leave no trace; no ESC with colours disabled; binary stderr equals the library stream (plus exactly one E001 per failing generator), totals and exit status match.",
+         "trusts the re-parser of the human format (written from the statement: tab = 4 cells); user text has no ESC and no line break",
+         "DESIGN.md section 5, C14"),
+ "C15": ("proptest multi-file programs on real files: every permutation and source/reference assignment in-process; collision / preprocessor / cycle templates; repeated and permuted runs of the real binary with decoded requests",
+         "exploration",
+         "Generated 1..4-file programs (valid, with warnings, with one injected error) are compiled in every file order (all 24 for 4 files) and every source/reference assignment: acceptance, per-path observed content and the multiset of warnings must not change; 20 templates target name collisions (incl. definition vs nested module), preprocessor symbols across files and cycles spread over files; the same argv twice in fresh processes must give byte-identical streams and requests, permuted runs the same per-path decoded request.",
+         "hash-map iteration order differs between processes, so in-process repetition is weaker than the two-process comparison (both are done); error diagnostics of rejected programs are not compared across orders",
+         "DESIGN.md section 5, C15"),
+ "C18": ("fault enumeration: proptest-drawn combinations of 1..3 generators x process-level and reply-level fault catalogue x output directory situations, through the real binary, judged by the reference reply decoder",
+         "fault_enumeration",
+         "Each generator is independently one of 13 process-level behaviours or one of ~3000 reply-level faults (every truncation point and byte corruptions of three reply shapes, all one-byte replies, invalid bool / UTF-8 / level, sizes to 2^61, unknown / malformed tagged fields, empty, trailing bytes), in first / middle / last position next to good generators, with output directory absent / given / nonexistent / below a file / holding identical and different files: every runnable generator runs once, exactly one error names each failing one, the output tree holds exactly the files of replies the reference decoder accepts, identical files keep inode and mtime, exit status matches, no crash, no hang, identical request with own arguments.",
+         "the fault catalogue is sampled in combination (single faults are covered exhaustively by C11's reply family); a generator that exits without reading a small request is a race and judged leniently",
+         "DESIGN.md section 5, C18"),
 }
 
 NOT_YET = "check not built yet in this session (see DESIGN.md section 9 for the build order); will be claimed once its machinery is in place"
